@@ -178,6 +178,9 @@ func main() {
 		if r.NoPreempt {
 			c.MaxPreempt = 0
 		}
+		if os.Getenv("VERIF_NOPOR") == "1" {
+			c.NoPOR = true
+		}
 		if c.SolverBin == "" {
 			c.SolverBin = "z3-new"
 		}
